@@ -481,6 +481,10 @@ impl World {
         Ok(format!("{} {}", a, bb))
     }
 
+    pub fn do_swap_pub(&mut self, amount: u64, limit: u128, ein: bool, dir: bool, starts: &[i32]) -> Result<(u64, u64, u64, u64), String> {
+        self.do_swap(amount, limit, ein, dir, starts).map(|x| (x.1.amount_a, x.1.amount_b, x.1.lp_fee, x.1.protocol_fee))
+    }
+
     fn do_swap(&mut self, amount: u64, limit: u128, ein: bool, dir: bool, starts: &[i32]) -> Result<(String, SwapOutcome), String> {
         for s in starts {
             self.ensure_array(*s);
@@ -1038,6 +1042,29 @@ impl Hist {
                         }
                     }
                 };
+                if r.chance(1, 5) {
+                    // C16 / C03 / C06: the swap INSTRUCTION (real handler through the entrypoint, real token programs)
+                    let ver = if r.chance(1, 4) { 1 } else { 2 };
+                    let fee = |r: &mut Rng| -> String {
+                        if r.chance(1, 3) {
+                            return "65535 0 0".to_string();
+                        }
+                        let bps = match r.below(4) {
+                            0 => r.pick(&[0u64, 1, 10000, 9999]),
+                            1 => r.pick(&[50u64, 100, 300, 999, 5000]),
+                            _ => r.below(10001),
+                        };
+                        let max = match r.below(4) {
+                            0 => r.pick(&[0u64, 1, u64::MAX, u64::MAX / 2]),
+                            1 => r.pick(&[5000u64, 1_000_000, 1_000_000_000]),
+                            _ => r.u64_amount(),
+                        };
+                        format!("{} {} {}", bps, max, b(r.chance(1, 2)))
+                    };
+                    let (fa, fb) = (fee(r), fee(r));
+                    let thr_mode = r.pick(&[0u8, 0, 1, 1, 2]);
+                    return format!("H xswap {} {} {} {} {} {} {} {}", ver, amt, thr_mode, limit, b(ein), b(dir), fa, fb);
+                }
                 if r.chance(1, 2) {
                     // C10: the same swap through the account-packaging layer, with a random packaging
                     let step = if dir { -tia } else { tia };
@@ -1141,6 +1168,23 @@ impl Family for Hist {
             Some(w) => w,
             None => return "bad-op".into(),
         };
+        if t[1] == "xswap" {
+            // instruction-level swap on a copy of the state (does not change the history)
+            let o = std::panic::catch_unwind(std::panic::AssertUnwindSafe(|| w.x_swap(&t)));
+            return match o {
+                Ok(o) => {
+                    for v in o.viols {
+                        ctx.viol(v);
+                    }
+                    for tg in o.tags {
+                        ctx.tag(tg);
+                    }
+                    ctx.tag("xswap");
+                    o.line + " | " + &w.digest()
+                }
+                Err(_) => "err HarnessPanic | ".to_string() + &w.digest(),
+            };
+        }
         let pre = crate::hist_oracle::snapshot(w);
         // C10: the canonical packaging of the same swap on a copy of the world
         let canonical: Option<(World, Result<String, String>)> = if t[1] == "pswap" {
